@@ -60,3 +60,17 @@ func VerifHooks(name string) []Hook {
 	}
 	return out
 }
+
+// VerifRegisteredHooks returns the hook registrations of a database, in the
+// controller's order.
+func VerifRegisteredHooks(name string) []*RegisteredHook {
+	c, err := getController(name)
+	if err != nil {
+		return nil
+	}
+	c.hooksLock.RLock()
+	defer c.hooksLock.RUnlock()
+	out := make([]*RegisteredHook, len(c.hooks))
+	copy(out, c.hooks)
+	return out
+}
